@@ -129,7 +129,7 @@ def switchpoint_roundtrip(kind):
     idx, d2, tod, val = u.value
     check(And(idx == z, d2 == dow, tod == slot * 5), "zone index, day and minute-of-day come back")
     if kind == "zone":
-        check(val == k, "the setpoint comes back in hundredths of a degree")
+        lemma(val == k, "the setpoint comes back in hundredths of a degree")
         check(val / 100 == k / 100, "and decodes to the setpoint that was packed")
     else:
         check(val == Ite(en, 1, 0), "the on/off state comes back")
@@ -141,7 +141,7 @@ def decompress_stub(data, *args, **kwargs):
     return ghost("raw_schedule")[0]
 
 
-@harness("C17", cases=[(days, per_day) for days in (1, 2) for per_day in (1, 2)], stubs={S.zlib.decompress: decompress_stub})
+@harness("C17", cases=[(days, per_day) for days in (1, 2, 3) for per_day in (1, 2, 3)], quick=lambda days, per_day: days <= 2 and per_day <= 2, stubs={S.zlib.decompress: decompress_stub})
 def decoded_schedule_is_the_one_packed(days, per_day):
     """The real decode loop of fragz_to_full_sched (20-byte records -> day grouping -> time-of-day text
     -> setpoint) on the bytes _struct_pack produced for a schedule of `days` days x `per_day`
@@ -151,16 +151,21 @@ def decoded_schedule_is_the_one_packed(days, per_day):
     full = {"zone_idx": f"{z:02X}", "schedule": []}
     raw = []
     for d in range(days):
-        sps = []
+        sps, cents = [], []
         for i in range(per_day):
             slot = sym_int(f"slot_{d}_{i}", 0, 287)
             k = sym_int(f"centi_{d}_{i}", 500, 3500)
+            cents.append((slot, k))
             h, m = slot // 12, (slot % 12) * 5
             sps.append({"time_of_day": f"{h:02d}:{m:02d}", "heat_setpoint": k / 100})
         day = {"day_of_week": d, "switchpoints": sps}
         full["schedule"].append(day)
-        for sp in sps:
-            raw.extend(S._struct_pack(full, day, sp))
+        for sp, (slot, k) in zip(sps, cents):
+            rec = S._struct_pack(full, day, sp)
+            # the single-record contract (switchpoint_roundtrip), used here as a lemma
+            u = S._struct_unpack(rec)
+            lemma(And(u[2] == slot * 5, u[3] == k), "each packed record unpacks to its minute of day and its setpoint in hundredths")
+            raw.extend(rec)
     ghost("raw_schedule").append(bytearray(raw))
     o = outcome(S.fragz_to_full_sched, ["00"])
     check(o.ok, "the packed schedule decodes")
